@@ -493,7 +493,7 @@ func checkEndpointTypes(r *Report, p *Prog) {
 	// (the parse may sit in an unexported helper of the checker)
 	var checker *ssa.Function
 	for _, fn := range p.modFns {
-		if !p.InLibrary(fn) || !inPkg(fn, modPath) || fn.Signature.Recv() != nil || fn.Signature.Params().Len() != 2 || fn.Signature.Results().Len() != 2 || errIndex(fn) != 1 || !isStringType(fn.Signature.Results().At(0).Type()) {
+		if !p.InLibrary(fn) || !(inPkg(fn, modPath) || fn.Pkg != nil && strings.HasPrefix(fn.Pkg.Pkg.Path(), modPath+"/internal/")) || fn.Signature.Recv() != nil || fn.Signature.Params().Len() != 2 || fn.Signature.Results().Len() != 2 || errIndex(fn) != 1 || !isStringType(fn.Signature.Results().At(0).Type()) {
 			continue
 		}
 		for _, f := range helperRegion(p, fn, 2) {
